@@ -1332,6 +1332,174 @@ variant("drule-BREAK-first-base-module-wins", {DRU: DRU_HEAD + PREFIXER_PLAIN + 
 variant("drule-BREAK-first-file-wins", {DRU: DRU_HEAD + PREFIXER_PLAIN + DRULE_CLASS.replace("        self._file_path = file_path\n", "        self._file_path = self._file_path or file_path\n")}, expect="C07.R3")
 
 
+# ---------------------------------------------------------------------------------------------- eighth batch (round 9): violations
+# produced by generators / callbacks / collector objects; pairs + itertools.groupby / permutations / product / starmap
+_GEN_CONSUME = """
+    def assert_applies(self, evaluable: EvaluableArchitecture) -> None:
+        error_messages = %s
+        if error_messages:
+            raise AssertionError("\\n".join(error_messages))
+"""
+_GEN_ELSE_CONTINUE = """
+    def _iter_violations(self, evaluable):
+        for rule_applier in self._rule_appliers:
+            try:
+                rule_applier.assert_applies(evaluable)
+            except AssertionError as e:
+                violation = e.args[0]
+            else:
+                continue
+            yield violation
+"""
+_GEN_YIELD_IN_HANDLER = """
+    def _iter_violations(self, evaluable):
+        for rule_applier in self._rule_appliers:
+            try:
+                rule_applier.assert_applies(evaluable)
+            except AssertionError as e:
+                yield e.args[0]
+"""
+variant("mra-generator-else-continue-list", _mra_full("", _GEN_CONSUME % "list(self._iter_violations(evaluable))" + _GEN_ELSE_CONTINUE))
+variant("mra-generator-yield-in-handler-tuple", _mra_full("", _GEN_CONSUME % "tuple(self._iter_violations(evaluable))" + _GEN_YIELD_IN_HANDLER))
+variant("mra-generator-sorted-star", _mra_full("", _GEN_CONSUME % "[*self._iter_violations(evaluable)]" + _GEN_YIELD_IN_HANDLER))
+variant("mra-generator-joined-directly", _mra_full("", """
+    def assert_applies(self, evaluable: EvaluableArchitecture) -> None:
+        report = "\\n".join(self._iter_violations(evaluable))
+        if report:
+            raise AssertionError(report)
+""" + _GEN_YIELD_IN_HANDLER))
+variant("mra-generator-of-exceptions-module-level", _mra_full("""
+def _violations(rule_appliers, evaluable):
+    for rule_applier in rule_appliers:
+        try:
+            rule_applier.assert_applies(evaluable)
+        except AssertionError as error:
+            yield rule_applier, error
+""", """
+    def assert_applies(self, evaluable: EvaluableArchitecture) -> None:
+        failed = list(_violations(self._rule_appliers, evaluable))
+        if not failed:
+            return
+        raise AssertionError("\\n".join(error.args[0] for _rule, error in failed))
+"""))
+variant("mra-generator-yield-from-per-rule", _mra_full("", _GEN_CONSUME % "list(self._iter_violations(evaluable))" + """
+    @staticmethod
+    def _violation_of(rule_applier, evaluable):
+        try:
+            rule_applier.assert_applies(evaluable)
+        except AssertionError as e:
+            yield e.args[0]
+
+    def _iter_violations(self, evaluable):
+        for rule_applier in self._rule_appliers:
+            yield from self._violation_of(rule_applier, evaluable)
+"""))
+variant("mra-callback-protocol", _mra_full("", """
+    def assert_applies(self, evaluable: EvaluableArchitecture) -> None:
+        error_messages: list[str] = []
+        self._each_violation(evaluable, error_messages.append)
+        if error_messages:
+            raise AssertionError("\\n".join(error_messages))
+
+    def _each_violation(self, evaluable, on_violation) -> None:
+        for rule_applier in self._rule_appliers:
+            try:
+                rule_applier.assert_applies(evaluable)
+            except AssertionError as e:
+                on_violation(e.args[0])
+"""))
+variant("mra-collector-object", _mra_full("""
+class _Collector:
+    def __init__(self) -> None:
+        self._messages: list[str] = []
+
+    def record(self, error: AssertionError) -> None:
+        self._messages.append(error.args[0])
+
+    def raise_if_any(self) -> None:
+        if self._messages:
+            raise AssertionError("\\n".join(self._messages))
+""", """
+    def assert_applies(self, evaluable: EvaluableArchitecture) -> None:
+        collector = _Collector()
+        for rule_applier in self._rule_appliers:
+            try:
+                rule_applier.assert_applies(evaluable)
+            except AssertionError as e:
+                collector.record(e)
+        collector.raise_if_any()
+"""))
+variant("mra-BREAK-generator-returns-after-first", _mra_full("", _GEN_CONSUME % "list(self._iter_violations(evaluable))" + _GEN_YIELD_IN_HANDLER.replace("yield e.args[0]", "yield e.args[0]\n                return")), expect="C07.R2")
+variant("mra-BREAK-generator-raise-while-iterating", _mra_full("", """
+    def assert_applies(self, evaluable: EvaluableArchitecture) -> None:
+        for message in self._iter_violations(evaluable):
+            raise AssertionError(message)
+""" + _GEN_YIELD_IN_HANDLER), expect="C07.R2")
+variant("mra-BREAK-generator-yields-for-fulfilled-rules", _mra_full("", _GEN_CONSUME % "list(self._iter_violations(evaluable))" + _GEN_ELSE_CONTINUE.replace("                continue\n", "                violation = ''\n")), expect="C07.R2")
+variant("mra-BREAK-generator-catches-exception", _mra_full("", _GEN_CONSUME % "list(self._iter_violations(evaluable))" + _GEN_YIELD_IN_HANDLER.replace("except AssertionError", "except Exception")), expect="C07.R2")
+variant("mra-BREAK-collector-at-class-level", _mra_full("""
+class _Collector:
+    def __init__(self) -> None:
+        self._messages: list[str] = []
+
+    def record(self, error: AssertionError) -> None:
+        self._messages.append(error.args[0])
+
+    def raise_if_any(self) -> None:
+        if self._messages:
+            raise AssertionError("\\n".join(self._messages))
+""", """
+    _collector = _Collector()
+
+    def assert_applies(self, evaluable: EvaluableArchitecture) -> None:
+        for rule_applier in self._rule_appliers:
+            try:
+                rule_applier.assert_applies(evaluable)
+            except AssertionError as e:
+                self._collector.record(e)
+        self._collector.raise_if_any()
+"""), expect="C07.R2")
+
+_GROUPED = CONV_HEAD + """from itertools import combinations, groupby, permutations, product, starmap
+from operator import itemgetter, methodcaller
+
+
+class DependencyToRuleConverter:
+    def __init__(self, should_only_rule: bool) -> None:
+        self._should_only_rule = should_only_rule
+
+    def convert(self, dependencies: ParsedDependencies) -> list[RuleApplier]:
+        return [*self._convert_should_rules(dependencies), *self._convert_should_not_rules(dependencies)]
+
+    def _convert_should_rules(self, dependencies: ParsedDependencies) -> list[RuleApplier]:
+        return list(starmap(self._generate_rule, dependencies.dependencies.items()))
+
+    def _generate_rule(self, importer: str, importees: set[str]) -> RuleApplier:
+        apply_verb = methodcaller("should_only" if self._should_only_rule else "should")
+        return apply_verb(Rule().modules_that().are_named(importer)).import_modules_that().are_named(list(importees))
+
+    @classmethod
+    def _convert_should_not_rules(cls, parsed_dependencies: ParsedDependencies) -> list[RuleApplier]:
+        drawn = parsed_dependencies.dependencies
+        modules = parsed_dependencies.all_modules
+%(pairs)s
+        return [
+            Rule().modules_that().are_named(possible_importer).should_not().import_modules_that().are_named([other for _, other in pairs])
+            for possible_importer, pairs in %(grouped)s
+        ]
+"""
+_G = {"pairs": "        undrawn = ((m, o) for m, o in permutations(sorted(modules), 2) if o not in drawn.get(m, ()))", "grouped": "groupby(undrawn, key=itemgetter(0))"}
+variant("conv-groupby-permutations", {DCV: _GROUPED % _G})
+variant("conv-groupby-sorted-set-of-pairs-lambda", {DCV: _GROUPED % {"pairs": "        undrawn = {(m, o) for m in modules for o in modules if m != o and o not in drawn.get(m, set())}", "grouped": "groupby(sorted(undrawn), key=lambda pair: pair[0])"}})
+variant("conv-groupby-product-filtered-sorted-by-key", {DCV: _GROUPED % {"pairs": "        undrawn = [(m, o) for m, o in product(modules, repeat=2) if m != o and o not in drawn.get(m, frozenset())]", "grouped": "groupby(sorted(undrawn, key=itemgetter(0)), itemgetter(0))"}})
+variant("conv-groupby-pairs-from-nested-loops", {DCV: _GROUPED % {"pairs": "        undrawn = []\n        for m in sorted(modules):\n            for o in sorted(modules):\n                if m != o and o not in drawn.get(m, set()):\n                    undrawn.append((m, o))", "grouped": "groupby(undrawn, key=itemgetter(0))"}})
+variant("conv-BREAK-groupby-product-with-self-pairs", {DCV: _GROUPED % {**_G, "pairs": "        undrawn = ((m, o) for m, o in product(sorted(modules), repeat=2) if o not in drawn.get(m, ()))"}}, expect="C07.R1")
+variant("conv-BREAK-groupby-combinations", {DCV: _GROUPED % {**_G, "pairs": "        undrawn = ((m, o) for m, o in combinations(sorted(modules), 2) if o not in drawn.get(m, ()))"}}, expect="C07.R1")
+variant("conv-BREAK-groupby-drawn-kept", {DCV: _GROUPED % {**_G, "pairs": "        undrawn = ((m, o) for m, o in permutations(sorted(modules), 2))"}}, expect="C07.R1")
+variant("conv-groupby-unsorted-set-of-pairs", {DCV: _GROUPED % {"pairs": "        undrawn = {(m, o) for m in modules for o in modules if m != o and o not in drawn.get(m, set())}", "grouped": "groupby(undrawn, key=itemgetter(0))"}}, expect="undecided")
+variant("conv-groupby-by-target", {DCV: _GROUPED % {**_G, "grouped": "groupby(undrawn, key=itemgetter(1))"}}, expect="undecided")
+
+
 def main() -> int:
     here = Path(__file__).resolve().parents[1]
     sys.path.insert(0, str(here))
